@@ -953,8 +953,9 @@ type ServerCfg struct {
 	// deviations: named-curve id and point as sent (and signed)
 	ECDHECurve, ECDHEWireCurve uint16
 	ECDHEPoint                 []byte
-	SKXRSA                     *RSAKey // sign the ECDHE parameters with this key instead of Sign.RSA
-	SKXSigAlg                  uint16  // name this SignatureAndHashAlgorithm in the ECDHE ServerKeyExchange (the signature itself stays RSA PKCS#1 v1.5 / SHA-256)
+	SKXRSA                     *RSAKey                                        // sign the ECDHE parameters with this key instead of Sign.RSA
+	SKXBody                    func(clientRandom, serverRandom []byte) []byte // GM: send this ServerKeyExchange body verbatim
+	SKXSigAlg                  uint16                                         // name this SignatureAndHashAlgorithm in the ECDHE ServerKeyExchange (the signature itself stays RSA PKCS#1 v1.5 / SHA-256)
 	// session tickets (RFC 5077), reference-server side: IssueTicket is sent in a
 	// NewSessionTicket message when the client offered the extension; Resume, when
 	// the client offers exactly Resume.Ticket, makes the server do the abbreviated
@@ -1147,7 +1148,11 @@ func ServerHandshake(c *Conn, cfg *ServerCfg) (*Result, error) {
 			}
 		}
 	}
-	if !cfg.OmitSKX && gm {
+	if !cfg.OmitSKX && gm && cfg.SKXBody != nil {
+		if err := c.WriteHandshake(HsServerKeyExchange, cfg.SKXBody(ch.Random, sh.Random)); err != nil {
+			return res, err
+		}
+	} else if !cfg.OmitSKX && gm {
 		sig := cfg.SKXRaw
 		if sig == nil {
 			cr, sr := ch.Random, sh.Random
